@@ -10,15 +10,15 @@ From PG Require Import Lib.Strs Model.Converter Model.Serializer Proofs.Converte
    the hooks of the table's classes registered (what structure_from_dict / unstructure_to_dict do
    first for the classes reachable from their argument). *)
 Theorem C16_encode_decode :
-  forall b64dec b64enc dt_parse date_parse int_of_str float_of_str str_of_json ct sreg ureg,
+  forall b64dec b64enc dt_parse date_parse uuid_parse time_parse int_of_str float_of_str str_of_json ct sreg ureg,
     (forall b, b64dec (b64enc b) = Some b) ->
     ct_ok ct -> all_hooked ct sreg -> all_hooked ct ureg ->
-    forall v T, ty_ok T = true -> inst_ok dt_parse date_parse ct T v ->
+    forall v T, ty_ok T = true -> inst_ok dt_parse date_parse uuid_parse time_parse ct T v ->
     exists j, unstructure b64enc ct ureg v T = Ok j /\
-              structure b64dec dt_parse date_parse int_of_str float_of_str str_of_json ct sreg j T = Ok v.
+              structure b64dec dt_parse date_parse uuid_parse time_parse int_of_str float_of_str str_of_json ct sreg j T = Ok v.
 Proof.
   intros until T. intros Hok Hi.
-  destruct (encode_decode_core b64dec b64enc dt_parse date_parse int_of_str float_of_str str_of_json
+  destruct (encode_decode_core b64dec b64enc dt_parse date_parse uuid_parse time_parse int_of_str float_of_str str_of_json
               ct sreg ureg H H0 H1 H2 v T Hok Hi) as [j [Hu [Hs _]]].
   exists j. split; assumption.
 Qed.
@@ -28,7 +28,7 @@ Print Assumptions C16_encode_decode.
    from another only by case-fold, an optional list, bytes). *)
 Theorem C16_guard_nonvacuous :
   ct_ok ct_demo /\ all_hooked ct_demo [0] /\ ty_ok (TData 0) = true /\
-  forall dt_parse date_parse, inst_ok dt_parse date_parse ct_demo (TData 0) v_demo.
+  forall dt_parse date_parse uuid_parse time_parse, inst_ok dt_parse date_parse uuid_parse time_parse ct_demo (TData 0) v_demo.
 Proof. exact (conj ct_demo_ok (conj demo_hooked (conj eq_refl v_demo_ok))). Qed.
 Print Assumptions C16_guard_nonvacuous.
 
@@ -36,12 +36,12 @@ Print Assumptions C16_guard_nonvacuous.
    all of whose classes are reached by the registration walk from the root class (executable guard
    reaches_all; what is not proved is that `reach` always is the full reachability closure). *)
 Theorem C16_api_encode_decode_partial :
-  forall b64dec b64enc dt_parse date_parse int_of_str float_of_str str_of_json ct,
+  forall b64dec b64enc dt_parse date_parse uuid_parse time_parse int_of_str float_of_str str_of_json ct,
     (forall b, b64dec (b64enc b) = Some b) -> ct_ok ct ->
     forall c v st, reaches_all ct (TData c) = true ->
-      inst_ok dt_parse date_parse ct (TData c) v ->
+      inst_ok dt_parse date_parse uuid_parse time_parse ct (TData c) v ->
       exists j st', unstructure_to_dict b64enc ct st v = (st', Returned j) /\
-        snd (structure_from_dict b64dec dt_parse date_parse int_of_str float_of_str str_of_json ct st' (TData c) j)
+        snd (structure_from_dict b64dec dt_parse date_parse uuid_parse time_parse int_of_str float_of_str str_of_json ct st' (TData c) j)
         = Returned v.
 Proof. exact api_encode_decode_partial. Qed.
 Print Assumptions C16_api_encode_decode_partial.
@@ -50,10 +50,10 @@ Print Assumptions C16_api_encode_decode_partial.
    not depend on what was registered / structured before (any two prior states, any document,
    conforming or not, any codecs). *)
 Theorem C16_history_free_partial :
-  forall b64dec dt_parse date_parse int_of_str float_of_str str_of_json ct T,
+  forall b64dec dt_parse date_parse uuid_parse time_parse int_of_str float_of_str str_of_json ct T,
     reaches_all ct T = true -> forall st1 st2 j,
-    snd (structure_from_dict b64dec dt_parse date_parse int_of_str float_of_str str_of_json ct st1 T j) =
-    snd (structure_from_dict b64dec dt_parse date_parse int_of_str float_of_str str_of_json ct st2 T j).
+    snd (structure_from_dict b64dec dt_parse date_parse uuid_parse time_parse int_of_str float_of_str str_of_json ct st1 T j) =
+    snd (structure_from_dict b64dec dt_parse date_parse uuid_parse time_parse int_of_str float_of_str str_of_json ct st2 T j).
 Proof. exact history_free_partial. Qed.
 Print Assumptions C16_history_free_partial.
 
@@ -63,8 +63,8 @@ Print Assumptions C16_reach_guard_nonvacuous.
 
 (* Whatever the history, the type and the document: structure_from_dict returns or raises ValueError. *)
 Theorem C16_errors :
-  forall b64dec dt_parse date_parse int_of_str float_of_str str_of_json ct st T j,
-    match snd (structure_from_dict b64dec dt_parse date_parse int_of_str float_of_str str_of_json ct st T j) with
+  forall b64dec dt_parse date_parse uuid_parse time_parse int_of_str float_of_str str_of_json ct st T j,
+    match snd (structure_from_dict b64dec dt_parse date_parse uuid_parse time_parse int_of_str float_of_str str_of_json ct st T j) with
     | Returned _ | ValueError => True
     | OtherError => False
     end.
@@ -93,14 +93,12 @@ Theorem C16_serializer_cyclic_example : serializer_ok (serialize_top h_cyc 0) /\
 Proof. exact h_cyc_ok. Qed.
 Print Assumptions C16_serializer_cyclic_example.
 
-(* F16d: "always returns JSON-serialisable data" is false: a dict holding a forward-reference
-   dataclass that holds another instance comes back with that instance unconverted, for every budget
-   (and this is not a recursion problem: guard_F16a holds). *)
-Theorem C16_refuted_F16d :
-  guard_F16d h_F16d 2 = false /\ guard_F16a h_F16d 2 = true /\
-  forall fuel, ~ serializer_ok (ser fuel h_F16d true [] 2).
-Proof. exact refuted_F16d. Qed.
-Print Assumptions C16_refuted_F16d.
+(* F16d (fixed): the old witness — a dict holding a forward-reference dataclass that holds another
+   instance — now serialises to plain JSON without null-valued keys. *)
+Theorem C16_regression_F16d :
+  serialize_top h_F16d 2 = SOk (JObj [([107], JObj [([112], JObj [])])]) /\ serializer_ok (serialize_top h_F16d 2).
+Proof. exact regression_F16d. Qed.
+Print Assumptions C16_regression_F16d.
 
 (* F16a: the full statement "the serialiser terminates on every object graph" is false: on the heap
    with two dataclass instances referencing each other the result is a RecursionError for every
